@@ -51,9 +51,17 @@ def grep_forbidden():
     return hits
 
 
-def audit(pid):
-    """Run `#print axioms` for every theorem listed in PynProps/<pid>.lean (namespace Pyn.<pid>).
-    returns dict theorem -> sorted axiom list, plus list of problems."""
+def audit(pid, extra=()):
+    """Run `#print axioms` for every theorem listed in PynProps/<pid>.lean (namespace Pyn.<pid>) and in the extra
+    modules of the property (PynProps/<name>.lean); returns dict theorem -> sorted axiom list, plus list of problems."""
+    res, problems = _audit_one(pid)
+    for m in extra:
+        r2, p2 = _audit_one(m)
+        res.update(r2); problems += p2
+    return res, problems
+
+
+def _audit_one(pid):
     src_path = os.path.join(LEAN, "PynProps", pid + ".lean")
     src = strip_comments(open(src_path).read())
     names = re.findall(r"^\s*theorem\s+([A-Za-z0-9_'.]+)", src, flags=re.M)
